@@ -34,9 +34,9 @@ SOFT_LIMIT = {"quick": 280, "thorough": 1700}
 REQUIRED_FUNCS = ["sempler/normal_distribution.py:NormalDistribution.sample", "sempler/lganm.py:LGANM.sample", "sempler/anm.py:ANM.sample",
                   "sempler/noise.py:normal"]
 REQUIRED_COUNTERS = {"quick": {"judged:nd": 200, "judged:lganm": 300, "judged:anm-pair": 200, "point-mass-columns": 100, "singular-covariances": 50,
-                               "shape:n<=2": 150, "anm:var!=1": 300},
+                               "shape:n<=2": 150, "anm:var!=1": 300, "pooled:variance-judged": 48, "pooled:mean-judged": 48, "pooled:covariance-judged": 48, "pooled:replicates": 20000},
                      "thorough": {"judged:nd": 400, "judged:lganm": 600, "judged:anm-pair": 400, "point-mass-columns": 200, "singular-covariances": 100,
-                                  "shape:n<=2": 300, "anm:var!=1": 600}}
+                                  "shape:n<=2": 300, "anm:var!=1": 600, "pooled:variance-judged": 190, "pooled:mean-judged": 190, "pooled:covariance-judged": 190, "pooled:replicates": 300000}}
 N = {"quick": {"n": 40000, "nd": 240, "lganm": 330, "anm": 240, "shape": 180}, "thorough": {"n": 400000, "nd": 1400, "lganm": 2000, "anm": 1400, "shape": 800}}
 
 
@@ -75,8 +75,16 @@ def _lganm(rng):
     return W, means, variances
 
 
+POOL = {"quick": {"cases": 64, "K": 256, "n": 20000}, "thorough": {"cases": 256, "K": 1024, "n": 40000}}
+
+
 def gen(tier, seed, shard, nshards):
     cfg = N[tier]
+    # pooled moments: K independent small (model, sample) replicates judged together - sensitive to systematic errors of a
+    # fraction of a percent that no single sample shows
+    for i in range(POOL[tier]["cases"]):
+        if i % nshards == shard:
+            yield "pooled", {"kind": ("nd", "lganm", "lganm-iv", "anm")[i % 4], "i": i, "K": POOL[tier]["K"], "n": POOL[tier]["n"], "base": int(seed)}
     k = 0
     for i in range(cfg["nd"]):
         if k % nshards == shard:
@@ -152,8 +160,91 @@ def _stats(Xs, mean, cov):
     return z
 
 
+def _pooled_stats(sempler, kind, seed_parts, K, n):
+    """Sum over K independent replicates of one standardised mean error, one standardised variance error and one signed
+    standardised covariance error (each has mean 0 and variance 1 under the population law), and the number of terms."""
+    acc = {"mean": [0.0, 0], "variance": [0.0, 0], "covariance": [0.0, 0]}
+    for r in range(K):
+        rng = util.rng_for(*seed_parts, r)
+        rs = int(rng.integers(0, 2**31))
+        if kind == "nd":
+            p = int(rng.integers(1, 6))
+            B = rng.normal(size=(p, p))
+            cov = B @ B.T + 0.2 * np.eye(p)
+            mu = np.round(rng.uniform(-3, 3, p), 2)
+            X = np.asarray(sempler.NormalDistribution(mu, cov).sample(n, random_state=rs), dtype=float).reshape(n, p)
+        else:
+            p = int(rng.integers(2, 6))
+            out = gmat.random_dag_masks(rng, p)
+            W = gmat.weighted(rng, out, "signed")
+            means = np.round(rng.uniform(-3, 3, p), 2)
+            variances = np.round(rng.uniform(0.2, 4, p), 2)
+            iv = _iv(rng, p, allow_point=False, anm_safe=True) if kind != "lganm" else {"do": {}, "noise": {}, "shift": {}}
+            kw = {"do_interventions": iv["do"], "noise_interventions": iv["noise"], "shift_interventions": iv["shift"]}
+            pop = sempler.LGANM(W, means, variances).sample(population=True, **kw)
+            mu, cov = np.asarray(pop.mean, dtype=float), np.asarray(pop.covariance, dtype=float)
+            if kind == "anm":
+                anm, ado, ashift, anoise = _anm_from(sempler, W, means, variances, iv)
+                X = np.asarray(anm.sample(n, do_interventions=ado, shift_interventions=ashift, noise_interventions=anoise, random_state=rs), dtype=float)
+            else:
+                X = np.asarray(sempler.LGANM(W, means, variances).sample(n, random_state=rs, **kw), dtype=float)
+        if X.shape != (n, p):
+            continue
+        d = np.diag(cov)
+        j = r % p
+        if not d[j] > 1e-9 * d.max():
+            continue
+        D = X - mu
+        acc["mean"][0] += float(D[:, j].mean() / math.sqrt(d[j] / n))
+        acc["mean"][1] += 1
+        acc["variance"][0] += float((np.mean(D[:, j] ** 2) - d[j]) / (d[j] * math.sqrt(2.0 / n)))       # known mean: exact variance 2 var^2 / n
+        acc["variance"][1] += 1
+        k2 = (j + 1 + r // p) % p
+        if k2 != j and d[k2] > 1e-9 * d.max() and abs(cov[j, k2]) > 1e-3 * math.sqrt(d[j] * d[k2]):
+            v = (d[j] * d[k2] + cov[j, k2] ** 2) / n
+            acc["covariance"][0] += float(np.sign(cov[j, k2]) * (np.mean(D[:, j] * D[:, k2]) - cov[j, k2]) / math.sqrt(v))
+            acc["covariance"][1] += 1
+    return acc
+
+
+def _judge_pooled(sempler, case, rec, family):
+    kind, K, n = case["kind"], case["K"], case["n"]
+    rec.case(family, case, True, key=("pooled", kind, case["i"], case["base"]))
+    try:
+        acc = _pooled_stats(sempler, kind, ("C04pool", case["base"], kind, case["i"]), K, n)
+    except Exception as e:
+        rec.exception_violation("C04:pooled-exception", family, case, "sampling raised in the pooled family", e)
+        return
+    for stat, (tot, cnt) in acc.items():
+        if cnt < 20:
+            continue
+        Z = tot / math.sqrt(cnt)
+        rec.count("pooled:%s-judged" % stat)
+        rec.count("pooled:replicates", cnt)
+        rec.max("max|Z|-pooled-" + stat, abs(Z))
+        if abs(Z) > S.Z_SUSPECT:
+            rec.count("escalations")
+            zs = []
+            for rep in range(3):
+                a2 = _pooled_stats(sempler, kind, ("C04pool-esc", case["base"], kind, case["i"], rep), 3 * K, n)
+                t2, c2 = a2[stat]
+                zs.append(t2 / math.sqrt(max(c2, 1)))
+                if not (abs(zs[-1]) > S.Z_CONFIRM and zs[-1] * Z > 0):
+                    break
+            else:
+                rec.violation("C04:pooled-%s-%s-off" % (kind, stat), family, case,
+                              "%s errors of %d independent %s samples of %d rows, standardised and pooled: Z = %.1f, confirmed on three fresh sets of %d "
+                              "samples: %s (a systematic relative error of about %.2g %s)"
+                              % (stat, cnt, kind, n, Z, 3 * K, ["%.1f" % v for v in zs],
+                                 abs(Z) / math.sqrt(cnt) * (math.sqrt(2.0 / n) if stat == "variance" else 1 / math.sqrt(n)),
+                                 "of the variance" if stat == "variance" else "standard deviations"))
+
+
 def judge(family, case, rec):
     import sempler
+    if family == "pooled":
+        _judge_pooled(sempler, case, rec, family)
+        return
     n = case["n"]
     if family == "nd":
         mean, cov = case["mean"], case["cov"]
